@@ -38,7 +38,7 @@ Theorem events_prefix_of_postorder h : forall e,
   (forall v, fst (xval h e) = ROk v -> map ref_of (snd (xval h e)) = refs e).
 Proof.
   intros e. split; [|intros v Hv; exact (events_postorder h e v Hv)].
-  induction e as [d|ip fp|fp|pn|pa pb|str|xe|n|k lab|k1 l1 k2 l2|name args IHargs|e IH|b l r IHl IHr|e IH] using expr_ind'.
+  induction e as [d|ip fp|fp|pn|pa pb|str|xe|n|k lab|k1 l1 k2 l2|sp name args IHargs|e IH|b l r IHl IHr|e IH] using expr_ind'.
   - apply prefix_nil.
   - apply prefix_nil.
   - apply prefix_nil.
